@@ -26,6 +26,16 @@ MUTS = [
     (r'\bfalse\b', 'true', 'false -> true'),
     (r'(?<![\w.#"])(\d+)(?![\w."])', None, 'n -> n+1'),
     (r'\.first\(\)', '.last()', 'first -> last'),
+    # structural: a child skipped by a traversal / a stage not applied to a field
+    (r'(vec!\[[^\]]*), [^,\]]+\]', r'\1]', 'vec![.., x] -> vec![..]'),
+    (r'\bf\((\w+)\)\?', r'\1', 'f(x)? -> x'),
+    (r'\.apply\(visitor\)\?', '', '.apply(visitor)? dropped'),
+    (r'\.reduce\(\)\?', '', '.reduce()? dropped'),
+    (r'\.apply_args\(args\)\?', '', '.apply_args(args)? dropped'),
+    (r'\.apply_inputs\(args\)\?', '', '.apply_inputs(args)? dropped'),
+    (r'\.apply_fees\(fees\)\?', '', '.apply_fees(fees)? dropped'),
+    (r'\.extend\(self\.\w+\.params\(\)\);', ';', 'params of a field not collected'),
+    (r'\.extend\(self\.\w+\.queries\(\)\);', ';', 'queries of a field not collected'),
 ]
 
 
@@ -96,7 +106,7 @@ def campaign(name):
                 if rep is None:
                     new = code[:m.start(1)] + str(int(m.group(1)) + 1) + code[m.end(1):]
                 else:
-                    new = code[:m.start()] + rep + code[m.end():]
+                    new = code[:m.start()] + m.expand(rep) + code[m.end():]
                 mutated = lines[:ln - 1] + [new + line[len(code):]] + lines[ln:]
                 open(path, 'w').write('\n'.join(mutated))
                 res['mutants'] += 1
